@@ -11,7 +11,7 @@ PROPS = {
         "level_note": "Proof per program; programs sampled (quick 14, thorough ~250 incl. all ordered pairs of field options). Trusted: see evidence.assumptions (client-view FromMeta, opaque syn, rewrite rules).",
         "design_ref": "DESIGN.md section 6 C01",
         "assumptions": "L3",
-        "not_covered": ["element-level traits' from_derive_input etc. are covered under C08/C16", "L2 with_inherited/as_codegen_field are exercised only through the emitted code, not separately contracted"],
+        "not_covered": ["element-level traits' from_derive_input etc. are covered under C08/C16", "L2 with_inherited / as_codegen_field / From<&Core> for TraitImpl carry their own contracts under C10 (units c10_field_options, c10_codegen_views, c10_codegen_conversions); C01 itself is decided on the emitted code"],
     },
     "C02": {
         "units": ["l1_error_api", "c05_accumulator", "c16_body_conversion", "c14_maps", "c02_sibling_shape"],
@@ -385,7 +385,7 @@ L3_ASSUMPTIONS = [
     "syn values (Meta, Lit, Path) are opaque; path text, spans and clone-equality are uninterpreted functions of the node",
     "user callables named in a declaration (with/map/and_then/default paths, Default impls) are external functions with uninterpreted spec twins",
     "pre-pass rewrites on emitted code: R14 (::darling -> crate::darling shim module), R7 (identity::<fn..>(f)(x) -> f(x)), R11 (format!(\"{}[{}]\") -> fmt_idx), R5 (match on &str -> if chain), R4 (function value -> annotated closure), R16 (alternates array bound to a local so its view can be stated)",
-    "callee contracts of Error/Accumulator are those of prelude/error_api.vrs and prelude/acc_api.vrs, proved on the real bodies in units l1_error_api / c05_accumulator; unknown_field_with_alts and add_sibling_alts_for_unknown_field are assumed at the instantiation used",
+    "callee contracts of Error/Accumulator are those of prelude/error_api.vrs and prelude/acc_api.vrs, proved on the real bodies in units l1_error_api / c05_accumulator; unknown_field_with_alts is seen as `a bare leaf whose suggestion is a FUNCTION dym_spec(name, candidate names)` - exactly that shape is proved on the real body in unit c17_did_you_mean (witness function dym_fn, uniqueness lemma_dym_unique); add_sibling_alts_for_unknown_field is proved in c17_sibling_alts / c02_sibling_shape; both are used here at the slice instantiation (&[&str])",
     "the case-rule string function (ident_case) is not verified: expected names come from an independent Python implementation of the six rules",
 ]
 
